@@ -929,6 +929,159 @@ func loopDecodeReuse(p *an.Prog, want func(*ssa.Function) bool) (out []string, n
 	return out, n
 }
 
+// responseOutlivesContext: a function that makes a context, defers its cancel and returns an *http.Response obtained
+// under that context hands its caller a body that net/http closes the moment the function returns: whatever did not
+// arrive together with the headers is never read (small replies work, large ones fail with "context canceled").
+func responseOutlivesContext(p *an.Prog, want func(*ssa.Function) bool) (out []string, n int) {
+	for _, fn := range p.Repo {
+		if p.IsTestFunc(fn) || isTestDoublePkg(fn) || !want(fn) {
+			continue
+		}
+		deferredCancel := false
+		an.AllInstrs(fn, func(in ssa.Instruction) {
+			df, ok := in.(*ssa.Defer)
+			if !ok {
+				return
+			}
+			for _, nd := range p.Derives(0, df.Call.Value).Nodes {
+				if c, ok := nd.(*ssa.Call); ok {
+					if g := an.CallObj(c); g != nil && g.Pkg() != nil && g.Pkg().Path() == "context" && strings.HasPrefix(g.Name(), "With") {
+						deferredCancel = true
+					}
+				}
+			}
+		})
+		if !deferredCancel {
+			continue
+		}
+		n++
+		res := fn.Signature.Results()
+		for i := 0; i < res.Len(); i++ {
+			if pt, ok := res.At(i).Type().(*types.Pointer); ok {
+				if nm := namedOf(pt.Elem()); nm != nil && nm.Obj().Pkg() != nil && nm.Obj().Pkg().Path() == "net/http" && nm.Obj().Name() == "Response" {
+					out = append(out, an.FuncName(fn)+" returns an *http.Response while deferring the cancel of the context it made for the request: the body is closed under the caller's hands as soon as this function returns")
+				}
+			}
+		}
+	}
+	return out, n
+}
+
+// closureCapturesLoopVar: a closure made inside a loop and kept for later (appended, stored, deferred — not just called
+// on the spot) that reads a variable which lives outside the loop body and is assigned on every turn sees, when it
+// finally runs, the value of the LAST turn. (Under go.mod's language version a `for _, x := range` variable is one
+// variable for the whole loop; go/ssa models that: its cell is allocated outside the cycle.)
+func closureCapturesLoopVar(p *an.Prog, want func(*ssa.Function) bool) (out []string, n int) {
+	for _, fn := range p.Repo {
+		if p.IsTestFunc(fn) || isTestDoublePkg(fn) || !want(fn) {
+			continue
+		}
+		an.AllInstrs(fn, func(in ssa.Instruction) {
+			mc, ok := in.(*ssa.MakeClosure)
+			if !ok || !onCycle(mc.Block()) {
+				return
+			}
+			n++
+			// kept for later?
+			kept := false
+			for _, ref := range *mc.Referrers() {
+				switch t := ref.(type) {
+				case *ssa.Call:
+					if t.Call.Value != ssa.Value(mc) {
+						kept = true // handed to something (append, a registry)
+					}
+				case *ssa.Go:
+					// judged by go-captures-live
+				case *ssa.Defer:
+					kept = true
+				default:
+					kept = true
+				}
+			}
+			if !kept {
+				return
+			}
+			cfn, _ := mc.Fn.(*ssa.Function)
+			for i, b := range mc.Bindings {
+				al, ok := b.(*ssa.Alloc)
+				if !ok || onCycle(al.Block()) {
+					continue
+				}
+				assignedInLoop := false
+				for _, ref := range *al.Referrers() {
+					if st, ok := ref.(*ssa.Store); ok && st.Addr == ssa.Value(al) && onCycle(st.Block()) {
+						assignedInLoop = true
+					}
+				}
+				reads := false
+				if cfn != nil && i < len(cfn.FreeVars) {
+					for _, ref := range *cfn.FreeVars[i].Referrers() {
+						if u, ok := ref.(*ssa.UnOp); ok && u.Op == token.MUL {
+							reads = true
+						}
+						if _, ok := ref.(*ssa.FieldAddr); ok {
+							reads = true
+						}
+					}
+				}
+				if assignedInLoop && reads {
+					out = append(out, an.FuncName(fn)+": the closure made at "+p.Pos(mc.Pos())+" and kept for later reads "+al.Comment+", which every turn of the loop assigns: when it runs it sees the last turn's value")
+				}
+			}
+		})
+	}
+	return out, n
+}
+
+// fieldBackingAppends: append(x.f[:k], ...) writes into the backing array of the slice kept in x.f. When x is a parameter
+// or receiver (by value or by pointer: a copied struct shares the array), every caller holding the same object writes into
+// the same array: two concurrent dispatches of one jsonrpc2.Method overwrite each other's arguments.
+func fieldBackingAppends(p *an.Prog, want func(*ssa.Function) bool) (out []string, n int) {
+	for _, fn := range p.Repo {
+		if p.IsTestFunc(fn) || isTestDoublePkg(fn) || !want(fn) {
+			continue
+		}
+		li := an.Locksets(fn, nil)
+		for _, c := range an.Calls(fn, false) {
+			b, ok := c.Common().Value.(*ssa.Builtin)
+			if !ok || an.Ident(b.Name()) != "append" || len(c.Common().Args) == 0 {
+				continue
+			}
+			sl, ok := c.Common().Args[0].(*ssa.Slice)
+			if !ok || sl.High == nil {
+				continue
+			}
+			var fv *types.Var
+			var root ssa.Value
+			switch x := sl.X.(type) {
+			case *ssa.UnOp:
+				if x.Op == token.MUL {
+					fv = an.FieldOf(x.X)
+					root, _ = an.RootPath(x.X)
+				}
+			case *ssa.Field:
+				fv = an.FieldOf(x)
+				root = x.X
+			}
+			if fv == nil || root == nil {
+				continue
+			}
+			if u, isLoad := root.(*ssa.UnOp); isLoad {
+				root = an.Unspill(u)
+			}
+			if _, isPrm := root.(*ssa.Parameter); !isPrm {
+				continue
+			}
+			n++
+			if len(li.Before[c.(ssa.Instruction)]) > 0 {
+				continue // under a lock: the owner's rules decide
+			}
+			out = append(out, an.FuncName(fn)+" appends into a re-slice of the field "+fv.Name()+" of its receiver/parameter ("+p.Pos(c.Pos())+") with no lock held: every holder of that object (copies included, they share the array) writes the same storage")
+		}
+	}
+	return out, n
+}
+
 // RunGeneric evaluates the generic discipline rules for one property over its scope.
 func RunGeneric(prop string, p *an.Prog, r *an.Run) {
 	pk := genericScope[prop]
@@ -1019,6 +1172,12 @@ func RunGeneric(prop string, p *an.Prog, r *an.Run) {
 	r.Check(len(is) == 0, "pure-stringer", strings.Join(pk, ","), token.NoPos, "String/Error/Marshal methods do not write to their receiver", "%s", strings.Join(dedup(is), "; "))
 	ld, _ := loopDecodeReuse(p, scopeWant(pk))
 	r.Check(len(ld) == 0, "loop-decode-reuse", strings.Join(pk, ","), token.NoPos, "no decode in a loop reuses a target declared outside it", "%s", strings.Join(dedup(ld), "; "))
+	ro, _ := responseOutlivesContext(p, scopeWant(pk))
+	r.Check(len(ro) == 0, "response-outlives-context", strings.Join(pk, ","), token.NoPos, "no *http.Response is returned past the deferred cancel of its request's context", "%s", strings.Join(dedup(ro), "; "))
+	cl, _ := closureCapturesLoopVar(p, scopeWant(pk))
+	r.Check(len(cl) == 0, "closure-loop-var", strings.Join(pk, ","), token.NoPos, "no closure kept for later reads a variable the loop assigns on every turn", "%s", strings.Join(dedup(cl), "; "))
+	fb, _ := fieldBackingAppends(p, scopeWant(pk))
+	r.Check(len(fb) == 0, "field-backing-append", strings.Join(pk, ","), token.NoPos, "no unlocked append into a re-slice of a field of the receiver or a parameter", "%s", strings.Join(dedup(fb), "; "))
 	tc, _ := trimCutsetMisuse(p, scopeWant(pk))
 	r.Check(len(tc) == 0, "trim-cutset", strings.Join(pk, ","), token.NoPos, "no Trim/TrimLeft/TrimRight is given a word for a cutset", "%s", strings.Join(tc, "; "))
 	r.Check(len(ex) == 0, "loop-visits-all", strings.Join(pk, ","), token.NoPos, "effectful collection loops are left early only under a count bound", "%s", strings.Join(ex, "; "))
